@@ -493,17 +493,24 @@ func TestC08Retained(t *testing.T) {
 	rapid.Check(t, func(t *rapid.T) {
 		sc := drawSealed(t, false)
 		n := rapid.IntRange(200, 600).Draw(t, "nrecords")
+		// a relay whose chunks never end on a record boundary: each write carries the rest of
+		// one record and the first byte(s) of the next
+		never := rapid.IntRange(0, 2).Draw(t, "writes_never_end_on_a_record_boundary") == 0
 		var client, backend []byte
 		client = append(client, sc.Record...)
 		for i := 0; i < n; i++ {
 			ct := byte(20 + rapid.IntRange(0, 2).Draw(t, "ct")) // never application data: inspection stays on
 			l := rapid.IntRange(1, 2000).Draw(t, "l")
+			if never {
+				l = 2000 + uniform(t, "l_big", 6000) // megabytes in all, so that what is kept shows
+			}
 			b := make([]byte, l)
 			b[0] = 9
 			client = append(client, hello.Record(ct, 0x0303, b)...)
 			backend = append(backend, hello.Record(ct, 0x0303, b)...)
 		}
 		tr := wire.New(client, io.EOF)
+		tr.NoLog = true // the transport keeps nothing of what passes: what stays on the heap is the Conn's
 		c, err := newConn(context.Background(), tr, echKeys(sc.Key))
 		if err != nil {
 			t.Fatalf("harness: %v", err)
@@ -515,12 +522,25 @@ func TestC08Retained(t *testing.T) {
 			return ms.HeapAlloc
 		}
 		buf := make([]byte, 4096)
+		base := heap()
 		half := len(backend) / 2
 		step := rapid.IntRange(1, 3000).Draw(t, "wstep")
+		over := rapid.IntRange(1, 4).Draw(t, "bytes_into_next_record")
 		var mid uint64
 		bpos := 0
 		for bpos < len(backend) {
 			k := min(step, len(backend)-bpos)
+			if never {
+				// from bpos (inside or at the start of a record) to `over` bytes into the next record
+				for p := 0; p+5 <= len(backend); {
+					e := p + 5 + (int(backend[p+3])<<8 | int(backend[p+4]))
+					if e > bpos {
+						k = min(e+over, len(backend)) - bpos
+						break
+					}
+					p = e
+				}
+			}
 			if _, e := c.Write(backend[bpos : bpos+k]); e != nil {
 				ev.Violation(t, "C08", map[string]any{"client_stream_len": len(client)}, "Write failed: %v", e)
 			}
@@ -533,10 +553,15 @@ func TestC08Retained(t *testing.T) {
 			}
 		}
 		end := heap()
-		if end > mid+(1<<20) {
+		if end > base+(256<<10) {
+			ev.Violation(t, "C08", map[string]any{"records": n, "base": base, "end": end, "never_aligned": never}, "heap retained by the Conn grew from %d (before the first Write) to %d bytes after %d bytes were relayed", base, end, len(backend))
+		}
+		if end > mid+(256<<10) {
 			ev.Violation(t, "C08", map[string]any{"records": n, "mid": mid, "end": end}, "heap retained by the Conn grew from %d to %d bytes over %d records", mid, end, n/2)
 		}
 		runtime.KeepAlive(c)
+		runtime.KeepAlive(client) // alive at every measurement, so that what they occupy cancels out
+		runtime.KeepAlive(backend)
 		rec.Class("retained_checked")
 	})
 }
